@@ -13,6 +13,7 @@ import (
 	"path/filepath"
 	"sort"
 	"strings"
+	"syscall"
 
 	"golang.org/x/tools/go/ssa"
 )
@@ -140,6 +141,15 @@ func (r *Replayer) run(pkgPath string, models []ReplayModel) (map[int]ReplayResu
 	bin, err := r.build(pkgPath)
 	if err != nil {
 		return nil, err
+	}
+	// native replays of different checks must not run at the same time: the
+	// loopback network world listens on fixed ports
+	if lock, err := os.OpenFile(filepath.Join(os.TempDir(), "gosym-native-replay.lock"), os.O_CREATE|os.O_RDWR, 0o666); err == nil {
+		syscall.Flock(int(lock.Fd()), syscall.LOCK_EX)
+		defer func() {
+			syscall.Flock(int(lock.Fd()), syscall.LOCK_UN)
+			lock.Close()
+		}()
 	}
 	results := map[int]ReplayResult{}
 	rest := models
